@@ -3,6 +3,7 @@
 -/
 import Proofs.AuthData
 import Proofs.AuthDataRT
+import Proofs.AuthDataTrunc
 import Proofs.Monad
 import Props.C10
 namespace Webauthn.Props.C11
@@ -131,6 +132,26 @@ theorem suffix_rejected (rp : Bytes) (fb : UInt8) (ctr : Nat) (att : Option (Byt
       .error (libErr .InvalidAuthenticatorDataStructure "authdata.leftover") := by
   have := parseAuthData_encode_sfx rp fb ctr att ext sfx hrp hctr hat hed haw hew hnp
   rwa [if_neg hs] at this
+
+/-- **truncated**: every strict prefix of the canonical layout — cut inside the header, the AAGUID,
+the length field, the credential id, the CBOR key (at any depth of nesting) or the extensions — is
+refused with one of the two library exceptions. Uses prefix-freeness of the CBOR fragment
+(`Cbor.dec_prefix`), that fuel `2·|bs|+2` always suffices (`Cbor.enough`) and fuel monotonicity.
+`keyNotMap3`: the key is not a 3-entry map (every COSE_Key has 4 or 5 members). -/
+theorem truncated (rp : Bytes) (fb : UInt8) (ctr : Nat) (att : Option (Bytes × Bytes × Cbor)) (ext : Option Cbor)
+    (t s : Bytes) (he : encodeAuthData rp fb ctr att ext = t ++ s) (hs : s ≠ [])
+    (hrp : rp.length = 32) (hctr : ctr < 2 ^ 32)
+    (hat : (parseFlags fb).att = att.isSome) (hed : (parseFlags fb).ed = ext.isSome)
+    (haw : attWF att) (hew : extWF ext) (hk3 : keyNotMap3 att) :
+    ∃ e, parseAuthData t = .error e ∧
+      (e.kind = .lib .InvalidAuthenticatorDataStructure ∨ e.kind = .lib .InvalidCBORData) := by
+  rcases parseAuthData_truncated rp fb ctr att ext t s he hs hrp hctr hat hed haw hew hk3 with h | h
+  · exact ⟨_, h, Or.inl rfl⟩
+  · exact ⟨_, h, Or.inr rfl⟩
+
+/-- the CBOR decoder as modelled never runs out of fuel: the `oom "fuel"` outcome in the statement of
+`total` is unreachable (what remains out of model is genuinely outside the fragment) -/
+theorem fuel_suffices (bs : Bytes) : Cbor.loads bs ≠ .error (.oom "fuel") := Cbor.loads_ne_fuel bs
 
 /-- non-vacuity: a concrete attested + extensions layout meets every hypothesis of `exact` -/
 example :
